@@ -206,6 +206,36 @@ class OrderLeg(object):
                 r = byid[f.id]
                 if (f.seqid, f.start, f.end, f.score, f.featuretype) != (r["seqid"], r["start"], r["end"], r["score"], r["featuretype"]):
                     return Failure("%s returned %r with columns differing from its line" % (desc, f.id), sig={"kind": "row"})
+        # counts and distinct values keep agreeing with a full scan after the content changed
+        # through the same handle (delete, then update)
+        victims = [r["id"] for i, r in enumerate(rows) if i % 3 == 0]
+        db.delete(victims, make_backup=False)
+        left = [r for r in rows if r["id"] not in victims]
+        bad = self._recount(db, left, "after delete()")
+        if bad:
+            return bad
+        from gffutils.feature import feature_from_line
+
+        extra = [feature_from_line("chrNew\tsrc\tCDS\t1\t9\t.\t+\t.\tID=added%d" % i) for i in range(2)]
+        db.update(extra, make_backup=False)
+        left = left + [{"id": "added%d" % i, "featuretype": "CDS", "seqid": "chrNew"} for i in range(2)]
+        return self._recount(db, left, "after update()")
+
+    def _recount(self, db, rows, when):
+        total = db.count_features_of_type()
+        if total != len(rows):
+            return Failure("%s: count_features_of_type() = %r, %d features are stored" % (when, total, len(rows)), sig={"kind": "count-stale"})
+        for t in FTS:
+            n1 = db.count_features_of_type(t)
+            n2 = len(list(db.features_of_type(t)))
+            n3 = sum(1 for r in rows if r["featuretype"] == t)
+            if not (n1 == n2 == n3):
+                return Failure("%s: featuretype %r: count_features_of_type=%r, iterated=%r, stored=%r" % (when, t, n1, n2, n3),
+                               sig={"kind": "count-stale"})
+        if sorted(db.featuretypes()) != sorted(set(r["featuretype"] for r in rows)):
+            return Failure("%s: featuretypes() = %r" % (when, sorted(db.featuretypes())), sig={"kind": "distinct-stale"})
+        if sorted(db.seqids()) != sorted(set(r["seqid"] for r in rows)):
+            return Failure("%s: seqids() = %r" % (when, sorted(db.seqids())), sig={"kind": "distinct-stale"})
         return None
 
 
